@@ -69,3 +69,11 @@ def r7_end_to_end(run, tree):
 
 
 RULES = [r1_operator_table, r2_convert_before_combine, r3_unit_derivation, r4_dtype_gate, r5_to, r6_helpers, r7_end_to_end]
+
+
+def t_pair_space(run, tree):
+    run.rule("C02.T1", "thorough: every arithmetic and in-place operator over all ordered pairs of 15 units (lengths, time, mass, angle/percent/dimensionless, compound units, equal-size aliases)", "D7 fold of the whole Array class (and Vector.to) with dispatching numpy models and symbolic-scale units, over the complete product of the unit list", "", floor=1)
+    qs.check_unit_pair_space(run, tree, kinds=("strict", "free", "strict-in", "free-in"))
+
+
+THOROUGH_RULES = [t_pair_space]
